@@ -30,6 +30,9 @@ class C09(Check):
         cfg = calsim.gen_config(rng, rl_prob=1.0 if rl else 0.0, kinds=cheap, loss_kinds=["minkowski", "msm"])
         if rl and rng.random() < 0.5:
             cfg["scheduler"]["agent"] = {"kind": "scripted", "script": [rng.randrange(8) for _ in range(rng.randint(1, 9))]}
+        if rng.random() < 0.15:
+            # the convergence stop ends sessions early; the designation order must carry on from there
+            calsim.make_scripted_convergence(cfg, rng, n_values=rng.randint(2, 8))
         folder = rng.random() < 0.6
         ops = []
         u0 = rng.random()
@@ -157,6 +160,8 @@ class C09(Check):
         res.stats["batches"] += len(done)
         if len(done) >= 3:
             res.key = jdigest([cfg["scheduler"]["kind"], [(s["cls"], s["batch_size"]) for s in cfg["lineup"]], scn["ops"]])
+        if cfg.get("convergence_precision") is not None and any(r["op"][0] == "calibrate" and r.get("exc") is None and r.get("n_batches", 0) < r["op"][1] for r in sim.op_results):
+            res.stats["probe:session-ended-by-convergence"] += 1
         if rl and len([o for o in scn["ops"] if o[0] == "calibrate"]) > 1:
             res.stats["probe:rl-multi-session"] += 1
         res.digest = sim.digest()
